@@ -98,8 +98,15 @@ func c13(c *q.Ctx) {
 	gm := c.Fn(miner + "(*Miner).getUnconfirmedTx")
 	if gm != nil {
 		pool := "state.(*State).GetUnconfirmedTx(p0.ctx.State,false)#0"
-		c.Guard(gm, q.Cond{Canon: "(phi{*|p1} < proto.Size(" + pool + "[]))", Sense: true}, q.ToCall("append"), q.Opt{})
-		c.Effect(gm, q.Eff{Spec: "append", Arg: 1, Glob: "[" + pool + "[]]", Why: "transactions are taken in pool order", Rule: "K5"})
+		// the packed list is a PREFIX of the pool order, cut where the next transaction no longer fits: built either by
+		// appending element after element, or by counting and copying pool[:n]
+		if len(q.CallsIn(gm, "append")) > 0 {
+			c.Guard(gm, q.Cond{Canon: "(phi{*|p1} < proto.Size(" + pool + "[]))", Sense: true}, q.ToCall("append"), q.Opt{})
+			c.Effect(gm, q.Eff{Spec: "append", Arg: 1, Glob: "[" + pool + "[]]", Why: "transactions are taken in pool order", Rule: "K5"})
+		} else {
+			c.Effect(gm, q.Eff{Spec: "copy", Arg: 1, Glob: pool + "[:*]", Why: "transactions are taken in pool order (a prefix of the pool is copied)", Rule: "K5"})
+			c.CondCount(gm, "(phi{*|p1} < proto.Size("+pool+"[]))", 1, "the prefix ends where the next transaction exceeds the remaining size")
+		}
 		c.Gate(gm, "State.GetUnconfirmedTx", q.ToSuccess(), q.Opt{})
 	}
 	pm := c.Fn(st + "(*State).PlayForMiner")
